@@ -17,6 +17,11 @@ class UnmodelledRandomness(Exception):
     two documented ones (module-level `random`, `numpy.random`)"""
 
 
+class UnencodableRandomness(symx.Inconclusive):
+    """the code drew from one of the two ALLOWED sources through an entry point the engine does not model: not a property
+    violation, the check cannot decide (exit 2)"""
+
+
 class RunawayDraws(Exception):
     """a run consumed far more randomness than any run of the configuration can need (ordinary
     Exception on purpose: it is reported as a failure of the call, and replayed)"""
@@ -90,8 +95,27 @@ class RandomStub:
     def seed(self, *a, **k):
         return None
 
+    # further entry points of the same (allowed) source, modelled through the primitives above
+    def uniform(self, a, b):
+        return a + (b - a) * self.random()
+
+    def randrange(self, start, stop=None, step=1):
+        r = list(range(start, stop, step)) if stop is not None else list(range(start))
+        return self.choice(r)
+
+    def randint(self, a, b):
+        return self.choice(list(range(a, b + 1)))
+
+    def shuffle(self, x):
+        perms = list(itertools.permutations(range(len(x))))
+        i = symx.ENG.choose(len(perms), 'shuffle')
+        self._log('shuffle', len(x), perms[i])
+        x[:] = [x[j] for j in perms[i]]
+
     def __getattr__(self, name):
-        raise UnmodelledRandomness("random.%s" % name)
+        if name in ('Random', 'SystemRandom'):
+            raise UnmodelledRandomness("random.%s: a private generator is not driven by random.seed" % name)
+        raise UnencodableRandomness("random.%s is not modelled by the engine" % name)
 
 
 class NPRandomStub:
@@ -106,8 +130,18 @@ class NPRandomStub:
     def seed(self, *a, **k):
         return None
 
+    def random(self, size=None):
+        if size is not None:
+            raise UnencodableRandomness("numpy.random.random(size=...)")
+        u = symx.ENG.var('u', lo=0, hi=1, hi_strict=True)
+        symx.ENG.log.append(('random', u))
+        return u
+    random_sample = rand = random
+
     def __getattr__(self, name):
-        raise UnmodelledRandomness("numpy.random.%s" % name)
+        if name in ('default_rng', 'RandomState', 'Generator'):
+            raise UnmodelledRandomness("numpy.random.%s: a private generator is not driven by numpy.random.seed" % name)
+        raise UnencodableRandomness("numpy.random.%s is not modelled by the engine" % name)
 
 
 class NPProxy:
@@ -158,9 +192,15 @@ class NPProxy:
 _POISON_TARGETS = None
 
 
+_DISALLOWED = ('random.Random', 'random.SystemRandom', 'numpy.random.default_rng', 'numpy.random.RandomState', 'os.', 'time.', 'secrets.', 'uuid.')
+
+
 def _poison(name):
     def f(*a, **k):
-        raise UnmodelledRandomness(name)
+        if name.startswith(_DISALLOWED):
+            raise UnmodelledRandomness(name)
+        # the global streams of random / numpy.random reached without going through the module attribute the engine stubs
+        raise UnencodableRandomness('%s reached directly (not through the stubbed module attribute)' % name)
     f.__name__ = 'poisoned_' + name.replace('.', '_')
     return f
 
